@@ -91,6 +91,17 @@ CHECKS = {
         "Save/restore happens between scheduler quanta (as savedb in the server loop's finally); counters are not part of the saved state.",
         "DESIGN.md section 2 C16-C18",
     ),
+    "C19": (
+        "exploration",
+        "Hypothesis histories of a collection's fetch/render jobs on the real queue (owned-schedule engine), do_render_status called "
+        "after every step through a JSON-round-trip proxy; model-derived state mapping + content-disposition grammar/round-trip oracle",
+        "Thousands of generated job histories (all job states incl. killed, timed out, dropped after TTL, other writer's job, re-added) with "
+        "the status command evaluated after every operation for both writers; expected state comes from the model of the queried "
+        "writer's render job, not from the queue snapshot.",
+        "Application.qserve is bound to an in-process proxy over the real workq (json.dumps/loads on arguments and results as the RPC "
+        "wire does); the HTTP/bottle layer is not in the loop.",
+        "DESIGN.md section 2 C19",
+    ),
 }
 
 NOT_YET = {}
